@@ -1,5 +1,6 @@
 import HexProofs.Framework.Schedule
-import HexProofs.Framework.Kinds.SMA
+import HexProofs.Framework.Timeframe
+import HexProofs.Framework.Kinds.All
 import HexProofs.Lib.IntInst
 import HexProps.C03
 /-
@@ -12,8 +13,13 @@ on the base timeframe (no timeframe / fill / conversion / lifespan), any constru
 any append schedule end with the same candles and readings as one batch `calculate()` – and both
 equal the row-major specification `rowMajor` (each reading computed from the prefix only).
 The equality is in `PyM`: if a reading raises, both runs raise the same exception.
-Contract instances proved so far: HLA, SMA.  The full statement (all 27 kinds incl. composites,
-collapsing timeframes, gap filling) is `C01_FULL`; what is missing is listed there.
+On a COLLAPSING timeframe (no fill) the same holds whenever the live history runs (a reading on
+the still-forming bucket may raise where the batch run, which never sees that intermediate
+bucket, does not): the live candles equal the batch candles and both equal
+`rowMajor ind (resample tf stream)`.
+Contract instances proved so far (`Covered`): HLA, TR, OBV, SMA, EMA, RMA, WMA, VWMA, ROC,
+Counter, HL, Aroon, Donchian – see `C01_partial`, `C01_partial_tf`.  The full statement (all 27 kinds incl. composites,
+gap filling) is `C01_FULL`; what is missing is listed there.
 -/
 namespace Hex.C01
 open Hex
@@ -49,35 +55,51 @@ theorem schedule_independent_leaf (ind : Ind F) (hl : IsLeaf ind) (K : Contract 
       runIndicator_refines ind hl K (init ++ chunks.flatten) [] (by rw [List.flatten_nil, List.append_nil]; exact hp)]
   simp
 
+/-- **Live = row-major spec of the resampled stream** (leaf kinds, collapsing timeframe). -/
+theorem schedule_rowMajor_leaf_tf (tf : Int) (htf : 0 < tf) (ind : Ind F) (hl : IsLeaf ind)
+    (K : Contract ind) (init : List (Candle F)) (chunks : List (List (Candle F)))
+    (hraw : RawTf (init ++ chunks.flatten)) (snap : List (Candle F))
+    (hlive : candlesOf (runIndicator ind (cfgTf tf) init chunks) = .ok snap) :
+    rowMajor ind (resample tf (init ++ chunks.flatten)) = .ok snap :=
+  runIndicator_tf_refines tf htf ind hl K init chunks hraw snap hlive
+
+/-- **C01 for leaf kinds on a collapsing timeframe.**  Whenever the live history – any
+construction prefix, any append chunks; every append re-collapses the open bucket and wipes its
+readings – runs, the batch run over the whole stream runs too and ends with exactly the same
+candles (collapsed OHLCV, bucket labels, both reading dicts). -/
+theorem schedule_independent_leaf_tf (tf : Int) (htf : 0 < tf) (ind : Ind F) (hl : IsLeaf ind)
+    (K : Contract ind) (init : List (Candle F)) (chunks : List (List (Candle F)))
+    (hraw : RawTf (init ++ chunks.flatten)) (snap : List (Candle F))
+    (hlive : candlesOf (runIndicator ind (cfgTf tf) init chunks) = .ok snap) :
+    candlesOf (runBatch ind (cfgTf tf) (init ++ chunks.flatten)) = .ok snap := by
+  unfold runBatch
+  rw [runBatch_tf tf htf ind hl K _ hraw]
+  exact runIndicator_tf_refines tf htf ind hl K init chunks hraw snap hlive
+
 /-! ### the shipped leaf kinds as top-level indicators -/
 
-theorem isLeaf_mkTop (k : Kind F) (name : String) (round : Nat) (hr : k.readOnly = true)
-    (hc : children k name = ([], [])) : IsLeaf (mkTop k name round) := by
-  unfold mkTop
-  rw [hc]
-  exact ⟨rfl, rfl, hr⟩
-
-/-- **C01, HighLowAverage** (no side conditions at all). -/
-theorem schedule_independent_hla (name : String) (round : Nat)
+/-- **C01, partial: all covered kinds, base timeframe.**  `Covered name k` lists the leaf kinds
+whose contract is proved (HLA, TR, OBV, SMA, EMA, RMA, WMA, VWMA, ROC, Counter, HL, Aroon,
+Donchian – every shipped leaf class except the Amorph wrapper) with their
+parameter conditions; for each of them, as the top-level indicator `mkTop k name round`, every
+append schedule ends with exactly the batch candles (same exception if a reading raises). -/
+theorem C01_partial (k : Kind F) (name : String) (round : Nat) (hk : Covered name k)
     (init : List (Candle F)) (chunks : List (List (Candle F)))
     (hp : RawInput (init ++ chunks.flatten)) :
-    candlesOf (runIndicator (mkTop .hla name round) {} init chunks)
-      = candlesOf (runBatch (mkTop .hla name round) {} (init ++ chunks.flatten)) :=
-  schedule_independent_leaf _ (isLeaf_mkTop .hla name round rfl rfl)
-    (hlaContract _ (by simp [mkTop, children, Ind.kind])) init chunks hp
+    candlesOf (runIndicator (mkTop k name round) {} init chunks)
+      = candlesOf (runBatch (mkTop k name round) {} (init ++ chunks.flatten)) := by
+  obtain ⟨K⟩ := hk.contract round
+  exact schedule_independent_leaf _ (hk.isLeaf round) K init chunks hp
 
-/-- **C01, SMA** over any candle field, `period ≥ 1`, any ordinary name. -/
-theorem schedule_independent_sma (p : Int) (input name : String) (round : Nat) (hp1 : 1 ≤ p)
-    (hname : IsKey name) (hin : NoDot input) (hattr : input ∈ Candle.attrNames)
-    (init : List (Candle F)) (chunks : List (List (Candle F)))
-    (hp : RawInput (init ++ chunks.flatten)) :
-    candlesOf (runIndicator (mkTop (.sma p input) name round) {} init chunks)
-      = candlesOf (runBatch (mkTop (.sma p input) name round) {} (init ++ chunks.flatten)) :=
-  schedule_independent_leaf _ (isLeaf_mkTop (.sma p input) name round rfl rfl)
-    (smaContract _ p input (by simp [mkTop, children, Ind.kind]) hp1
-      (by simpa [mkTop, children, Ind.name] using hname)
-      (by simpa [mkTop, children, Ind.name] using indep_attr name input hin hattr))
-    init chunks hp
+/-- **C01, partial: all covered kinds, collapsing timeframe** (no fill): whenever the live
+history runs, the batch run returns the same candles. -/
+theorem C01_partial_tf (tf : Int) (htf : 0 < tf) (k : Kind F) (name : String) (round : Nat)
+    (hk : Covered name k) (init : List (Candle F)) (chunks : List (List (Candle F)))
+    (hraw : RawTf (init ++ chunks.flatten)) (snap : List (Candle F))
+    (hlive : candlesOf (runIndicator (mkTop k name round) (cfgTf tf) init chunks) = .ok snap) :
+    candlesOf (runBatch (mkTop k name round) (cfgTf tf) (init ++ chunks.flatten)) = .ok snap := by
+  obtain ⟨K⟩ := hk.contract round
+  exact schedule_independent_leaf_tf tf htf _ (hk.isLeaf round) K init chunks hraw snap hlive
 
 /-! ### the full statement -/
 
@@ -101,19 +123,22 @@ structure WellFormed (xs : List (Candle F)) : Prop where
 /-- **C01 at full strength**: every shipped kind (27 classes, composites included, as built by
 `mkTop`), every parameter choice with positive periods, base or collapsing timeframe, with or
 without gap filling, every construction prefix and append schedule.
-NOT proved yet.  Missing: (i) contracts for the remaining leaf kinds (EMA, RMA, WMA, VWMA, TR,
-OBV, ROC, Counter, Donchian, HL, Aroon, Amorph) – each is one `*_trunc` + one `*_congr` lemma
-like SMA's; (ii) the framework refinement for trees with sub-indicators / managed helpers
+NOT proved yet.  Missing: (i) the contract for Amorph-wrapped analysis functions: `local_` is
+`Ana.runAnalysis_causal`, what is missing is `key_indep` (key locality of the 20 analysis
+functions); (ii) the framework refinement for trees with sub-indicators / managed helpers
 (`calcSubs`, `setManagedReading`), where ADX is known to violate the statement (see
-known_findings); (iii) the timeframe/fill case, which needs "re-collapsing keeps the readings of
-untouched buckets and wipes the merged one" on top of `collapse_resample_append`. -/
+known_findings); (iii) gap filling (`fill = true`): the refinement of `fillMissing` on a
+decorated bucket list (the timeframe case without fill is `schedule_independent_leaf_tf`).
+Note that with a timeframe the statement can only hold for histories that run: a reading on the
+still-forming bucket may raise where the batch run does not; so the full statement is about
+runs that return. -/
 def C01_FULL (F : Type) [PyF F] : Prop :=
   ∀ (k : Kind F) (name : String) (round : Nat) (tf : Option Int) (fill : Bool)
     (init : List (Candle F)) (chunks : List (List (Candle F))),
     (∀ p ∈ periods k, 1 ≤ p) → IsKey name → (∀ t, tf = some t → 0 < t) →
-    WellFormed (init ++ chunks.flatten) →
-    candlesOf (runIndicator (mkTop k name round) { tf := tf, fill := fill } init chunks)
-      = candlesOf (runBatch (mkTop k name round) { tf := tf, fill := fill } (init ++ chunks.flatten))
+    WellFormed (init ++ chunks.flatten) → ∀ snap,
+    candlesOf (runIndicator (mkTop k name round) { tf := tf, fill := fill } init chunks) = .ok snap →
+    candlesOf (runBatch (mkTop k name round) { tf := tf, fill := fill } (init ++ chunks.flatten)) = .ok snap
 
 /-! ### non-vacuity -/
 
@@ -128,16 +153,20 @@ def demoSMA : Ind Int := mkTop (.sma 2 "close") "SMA_2" 4
 theorem isKey_SMA_2 : IsKey "SMA_2" := by decide
 
 example : RawInput demo := by decide
-example : IsLeaf demoSMA := isLeaf_mkTop _ _ _ rfl rfl
-/-- the contract hypotheses of `schedule_independent_sma` are met by `SMA_2` over `close` -/
-example : Nonempty (Contract demoSMA) :=
-  ⟨smaContract _ 2 "close" rfl (by decide) isKey_SMA_2 (indep_attr "SMA_2" "close" noDot_close (by decide))⟩
+/-- `SMA_2` over `close` is covered … -/
+theorem covered_demo : Covered (F := Int) "SMA_2" (.sma 2 "close") :=
+  .sma 2 "close" (by decide) isKey_SMA_2 (by decide)
+example : IsLeaf demoSMA := covered_demo.isLeaf 4
+example : Nonempty (Contract demoSMA) := covered_demo.contract 4
 /-- … and the theorem applies to a schedule with an empty start, a single candle, an empty chunk
 and a larger chunk -/
 example : candlesOf (runIndicator demoSMA {} [] [demo.take 1, [], demo.drop 1])
     = candlesOf (runBatch demoSMA {} demo) :=
-  schedule_independent_sma 2 "close" "SMA_2" 4 (by decide) isKey_SMA_2 noDot_close (by decide)
-    [] [demo.take 1, [], demo.drop 1] (by decide)
+  C01_partial (.sma 2 "close") "SMA_2" 4 covered_demo [] [demo.take 1, [], demo.drop 1] (by decide)
+/-- other covered kinds with concrete parameters -/
+example : Covered (F := Int) "EMA_3" (.ema 3 "close" (.int 2)) := .ema 3 "close" _ (by decide) (by decide)
+example : Covered (F := Int) "VWMA_4" (.vwma 4) := .vwma 4 (by decide) (by decide)
+example : Covered (F := Int) "ROC" (.roc 1 "high") := .roc 1 "high" (by decide) (by decide) (by decide)
 /-- the SMA column of a run (`none` if the run raised) -/
 def smaColumn (r : PyM (List (Candle Int))) : Option (List (Option Int)) :=
   match r with
@@ -149,5 +178,13 @@ def smaColumn (r : PyM (List (Candle Int))) : Option (List (Option Int)) :=
 /-- … and the runs are not errors and the readings not all `None` -/
 example : smaColumn (candlesOf (runBatch demoSMA {} demo)) = some [none, some 3, some 3, some 4] := by
   decide
+
+/-- the same stream on a two-minute timeframe: two buckets, the first one re-opened by the
+second append; the hypotheses of `schedule_independent_leaf_tf` hold and the live run returns -/
+example : RawTf demo := ⟨by decide, by decide, by decide, by decide⟩
+example : smaColumn (candlesOf (runIndicator demoSMA (cfgTf 120) [] [demo.take 1, demo.drop 1]))
+    = some [none, some 5] := by decide +kernel
+example : smaColumn (candlesOf (runBatch demoSMA (cfgTf 120) demo)) = some [none, some 5] := by
+  decide +kernel
 
 end Hex.C01
